@@ -7,4 +7,4 @@ mkdir -p /verif/seeded/$id
 git -C /tmp/$WTP$p diff -- src > /verif/seeded/$id/patch.diff
 cp /tmp/$WTP$p/tests/seeded_demo.rs /tmp/$WTP$p/SEEDED.md /verif/seeded/$id/ 2>/dev/null
 git -C /repo worktree remove --force /tmp/$WTP$p
-/verif/tools/try_seed.sh /verif/seeded/$id/patch.diff $tier "$@" 2>&1 | grep -aE "^==|^failure|^OK|INCONCLUSIVE|^note" | cut -c1-420
+${SEED_RUNNER:-/verif/tools/try_seed.sh} /verif/seeded/$id/patch.diff $tier "$@" 2>&1 | grep -aE "^==|^failure|^OK|INCONCLUSIVE|^note" | cut -c1-420
